@@ -82,6 +82,8 @@ class ConstantKernel(Kernel):
         self._set_constant(value)
 
     def _set_constant(self, value: Tensor) -> None:
+        if not torch.is_tensor(value):
+            value = torch.as_tensor(value).to(self.raw_constant)
         value = value.view(*self.batch_shape, 1)
         self.initialize(raw_constant=self.raw_constant_constraint.inverse_transform(value))
 
@@ -120,4 +122,5 @@ class ConstantKernel(Kernel):
         if last_dim_is_batch:
             constant = constant.unsqueeze(-1)
 
-        return constant.expand(shape)
+        # the kernel's own batch shape takes part in the broadcast as well
+        return constant.expand(torch.broadcast_shapes(shape, constant.shape))
